@@ -383,35 +383,9 @@ impl Ord for OctetString {
             return l.cmp(r)
         }
 
-        let mut siter = self.iter();
-        let mut oiter = other.iter();
-        let mut spart = b"".as_ref();
-        let mut opart = b"".as_ref();
-
-        loop {
-            if spart.is_empty() {
-                spart = siter.next().unwrap_or(b"");
-            }
-            if opart.is_empty() {
-                opart = oiter.next().unwrap_or(b"");
-            }
-            match (spart.is_empty(), opart.is_empty()) {
-                (true, true) => return cmp::Ordering::Equal,
-                (true, false) => return cmp::Ordering::Less,
-                (false, true) => return cmp::Ordering::Greater,
-                (false, false) => { },
-            }
-            let len = cmp::min(spart.len(), opart.len());
-            match spart[..len].cmp(&opart[..len]) {
-                cmp::Ordering::Equal => { }
-                other => return other
-            }
-            spart = &spart[len..];
-            opart = &opart[len..];
-        }
+        self.octets().cmp(other.octets())
     }
 }
-
 
 //--- Hash
 
